@@ -44,7 +44,9 @@ def flat_decoder(ctx, body, adt):
         if f_ is None:
             return True
         if f_["kind"] == "closure":
-            return True
+            # a closure of the decoder itself (the body of a `try_for_each`, a local `let set = |p| ..` helper) is part
+            # of the decoder; closures of anything else are not reached (their owners stay calls)
+            return not p_.startswith(body.path + "::")
         sp = strip_generics(p_)
         if f_["kind"] == "fn" and not f_.get("impl_trait"):
             if not f_.get("impl_self") and sp.startswith(module) and sp.count("::") == module.count("::"):
@@ -357,13 +359,17 @@ def mandatory(ctx):
                 if res != "Err":
                     continue
                 n += 1
-                trigger = decided.pop("__last_none", None)
+                decided.pop("__last_none", None)
+                if not vb.feasible(path):
+                    continue
                 nones = {f for f, v in decided.items() if v == "none"}
-                ok = trigger in (want_val | want_build)
-                key = "%s:validate:err-triggered-by-missing:%s" % (nm, trigger or "nothing")
+                just = nones & (want_val | want_build)
+                ok = bool(just)
+                # in whichever order the tests are written: a refusal is justified when a mandatory part is absent on the path
+                key = "%s:validate:err-triggered-by-missing:%s" % (nm, ",".join(sorted(just)) if ok else "nothing-mandatory(absent:%s)" % (",".join(sorted(nones)) or "nothing"))
                 if not any(o.key.endswith(key) for o in out):
                     out.append(Inst("MANDATORY", key, ok, vb.site(path[-1]),
-                                    "validate() fails because %s is absent (on a path where %s are present)" % (trigger, sorted(f for f, v in decided.items() if v == "some")),
+                                    "validate() fails on a path where %s are absent and %s are present" % (sorted(nones), sorted(f for f, v in decided.items() if v == "some")),
                                     "refused only when a mandatory part is missing: %s" % sorted(want_val | want_build)))
             if n == 0 and want_val:
                 out.append(Inst("MANDATORY", "%s:validate:no-error-path" % nm, False, vb.site(0), "validate() never fails", "must refuse a packet lacking %s" % sorted(want_val)))
@@ -745,3 +751,146 @@ def legal_arm(ctx):
                             "arm %s: %d setter call(s), error exits: %s, value/state dependent branches before the store: %s" % (v, len(setters), [body.site(x) for x in errs] or "none", [body.site(x) for x in early] or "none"),
                             "the property is stored unconditionally; no early rejection inside the loop"))
     return out
+
+
+# ------------------------------------------------------------------------------------ UTF8-BYTES
+
+VALID_NONASCII = set(range(0x80, 0xC0)) | set(range(0xC2, 0xF5))     # bytes that occur in well-formed multi-byte UTF-8
+
+
+def byte_predicate_set(ctx, path):
+    """{b in 0..=255 : pred(b)} for a closure / function taking one byte (u8 or &u8) and returning bool, by running its
+    MIR on each of the 256 values (no loops, no calls expected); None if some value does not evaluate to a constant."""
+    import absint
+    f = ctx.facts.fn(path)
+    if f is None:
+        return None
+    arg = f["arg_count"]            # closures: local 1 is the environment, the byte is the last parameter
+    ty = f["locals"][arg]["ty"].replace("&", "").replace("mut ", "").strip() if arg >= 1 else ""
+    if not re.fullmatch(r"('\w+ )?u8", ty) or f.get("ret_ty") != "bool":
+        return None
+    body = ctx.world.body(path)
+    byref = "&" in f["locals"][arg]["ty"]
+    out = set()
+    for v in range(256):
+        ex = absint.Explorer(body, max_bytes=0, max_states=400)
+        cell = 10 ** 6
+        args = {cell: absint.iv(v, v)}
+        x = ("ref", {"l": cell, "p": []}) if byref else absint.iv(v, v)
+        if f["locals"][arg]["ty"].count("&") == 2:
+            args[cell + 1] = x
+            x = ("ref", {"l": cell + 1, "p": []})
+        args[arg] = x
+        ex.run(args)
+        vals = {r[1] for r in ex.returns}
+        if len(vals) != 1 or ex.unbounded:
+            return None
+        r = vals.pop()
+        if not (isinstance(r, tuple) and r[0] == "bool" and r[1] is not None):
+            return None
+        if r[1]:
+            out.add(v)
+    return out
+
+
+@rule("UTF8-BYTES", floor=2)
+def utf8_bytes(ctx):
+    """The UTF-8 string decoders reject no string because of the value of a single non-ASCII *byte*: a byte-level
+    test (`bytes.iter().any(|b| ..)`, `all`, `position`, `find`) whose rejecting set contains a byte that occurs in
+    well-formed multi-byte UTF-8 (0x80..=0xBF, 0xC2..=0xF4) refuses well-formed strings (control characters U+0080..
+    U+009F are two-byte sequences; their second byte is shared with ordinary characters)."""
+    from r_panic import _fn_value
+    out = []
+    n_units = 0
+    for im in ctx.facts.impls:
+        tr = im.get("trait")
+        adt = im.get("self_adt") or ""
+        if not tr or tr["path"] != "core::utils::TryDecode" or not re.match(r"core::base_types::UTF8String\w*$", adt):
+            continue
+        fn = [it for it in im["items"] if it["kind"] == "fn" and it["name"] == "try_decode"]
+        if not fn:
+            continue
+        n_units += 1
+        b = ctx.flat(ctx.world.body(fn[0]["def"]))
+        ctx.note(b)
+        nm = adt.split("::")[-1]
+        found = 0
+        for i, t in b.calls(r"(Iterator::(any|all|position|rposition|find)|slice::<impl \[T\]>::contains)$"):
+            meth = (callee_name(t) or "").split("::")[-1]
+            if meth == "contains":
+                k = b.fold(t["ops"][1]) if len(t["ops"]) > 1 else None
+                if k is None:
+                    o = b.origin(t["ops"][1], through_calls=False)
+                    if o[0] == "rv" and o[2]["rv"]["k"] == "ref":
+                        k = b.fold({"k": "copy", "pl": o[2]["rv"]["pl"]})
+                S = {k} if isinstance(k, int) else None
+            else:
+                fp = _fn_value(b, t["ops"][1]) if len(t["ops"]) > 1 else None
+                S = byte_predicate_set(ctx, fp) if fp else None
+            if S is None:
+                continue
+            found += 1
+            # which outcome of the test leads to an error return
+            sw = t["t"]
+            dst = t["dest"]
+            err_true = err_false = False
+            for x in sorted(b.reach):
+                # an error is made here (returned directly, or by the inlined helper whose result the caller passes on with `?`)
+                if not (is_err_block(b, x) or any(st["k"] == "assign" and st["rv"]["k"] == "agg" and st["rv"].get("variant") == "Err" and "Result" in (st["rv"].get("adt") or "")
+                                                 for st in b.blocks[x]["stmts"])):
+                    continue
+                for (d, s_) in dominating_edges(b, x):
+                    c = Cond(b, d)
+                    tt = b.term(d)
+                    if tt["k"] != "switch":
+                        continue
+                    o = b.origin(tt["op"], through_calls=False) if tt["op"].get("k") != "const" else ("const",)
+                    si = b.switch_info(d)
+                    src_ok = (o[0] == "call" and o[1] == i)
+                    if si and si["kind"] == "discr" and si.get("place") is not None:
+                        o2 = b.origin({"k": "copy", "pl": {"l": si["place"]["l"], "p": []}}, through_calls=False)
+                        src_ok = src_ok or (o2[0] == "call" and o2[1] == i)
+                    if not src_ok:
+                        continue
+                    if si and si["kind"] == "discr":
+                        vals = b.edge_value(d, s_)
+                        names = {si["variants"].get(v) for v in vals if v != "otherwise"}
+                        if "Some" in names:
+                            err_true = True
+                        elif "None" in names or "otherwise" in vals:
+                            err_false = True
+                    else:
+                        h = c.holds_on(s_)
+                        if h is True:
+                            err_true = True
+                        elif h is False:
+                            err_false = True
+            rej = None
+            if meth in ("any", "position", "rposition", "find", "contains") and err_true and not err_false:
+                rej = S
+            elif meth == "all" and err_false and not err_true:
+                rej = set(range(256)) - S
+            if rej is None:
+                continue
+            bad = sorted(rej & VALID_NONASCII)
+            out.append(Inst("UTF8-BYTES", "%s:byte-test#%d" % (nm, found), not bad, b.site(i),
+                            "the string is refused when a byte is in %s%s" % (_ranges(rej), "; of these %s occur in well-formed multi-byte UTF-8" % _ranges(set(bad)) if bad else ""),
+                            "no well-formed UTF-8 string is refused (multi-byte characters use 0x80..=0xBF and 0xC2..=0xF4)"))
+        fu = [i for i, t in b.calls(r"str::(converts::)?from_utf8$")]
+        out.append(Inst("UTF8-BYTES", "%s:validated-by-from_utf8" % nm, bool(fu), b.site(fu[0] if fu else 0),
+                        "%d std from_utf8 validation(s) in the decoder" % len(fu), "well-formedness is decided by the standard library's UTF-8 validation"))
+    if n_units == 0:
+        raise AnchorLost("TryDecode for core::base_types::UTF8String*")
+    return out
+
+
+def _ranges(s):
+    xs = sorted(s)
+    out, i = [], 0
+    while i < len(xs):
+        j = i
+        while j + 1 < len(xs) and xs[j + 1] == xs[j] + 1:
+            j += 1
+        out.append("0x%02X" % xs[i] if i == j else "0x%02X..=0x%02X" % (xs[i], xs[j]))
+        i = j + 1
+    return "{" + ", ".join(out) + "}"
